@@ -1,7 +1,7 @@
 """Per-property MANIFEST entries (level, text, trusted base, technique)."""
 CHECKS = {
     "C07": {
-        "families": ("processor", "evm"),
+        "families": ("processor", "evm", "explorer"),
         "level": "proof",
         "technique": "Lean 4 theorems (omega, all n : Nat) over formulas re-translated from Go/Solidity/Ralph source on every run",
         "text": ("The three quorum formulas are translated from /repo's current sources into Lean definitions on every run and the "
